@@ -304,4 +304,6 @@ EdgeDump == /\ IF op.name = "Init" \/ op'.res = "ok"
                THEN PrintT(<<"EDGE", ToJson([from |-> Abs, op |-> op', to |-> Abs'])>>)
                ELSE TRUE
             /\ Bounded
+\* alphabet only: print every operation attempted in the initial state, expand nothing (recorder runs)
+AlphabetDump == PrintT(<<"EDGE", ToJson([from |-> Abs, op |-> op', to |-> Abs'])>>) /\ FALSE
 =============================================================================
